@@ -359,7 +359,8 @@ func (c19) Generate(r *rand.Rand, t string) []*Case {
 	}
 	// last, so that the draws of the product above do not change
 	out = append(out, c19Mixed(r, t)...)
-	return append(out, c19Texts(r, t)...) // c19_texts.go
+	out = append(out, c19Texts(r, t)...)       // c19_texts.go
+	return append(out, c19LeadStream(r, t)...) // c19_lead.go
 }
 
 func (c19) Regressions() []*Case {
@@ -550,6 +551,13 @@ func C19Check(qual, anon bool, pre []string, others []string, src string) string
 	for _, c := range doc.List {
 		have = append(have, commentLines(c.Text)...)
 	}
+	if strings.Join(have, "\n") != strings.Join(want, "\n") && c19LooksRawAfterTrim(pre) && strings.Join(c19Unmark(have), "\n") == strings.Join(c19Unmark(want), "\n") {
+		// a block with white space in front of a comment marker (c19_lead.go): by the documented
+		// rule it is plain text (the marker is part of the text); C19 does not say which of the two
+		// readings the writer takes - every line is there either way (the bytes are compared with
+		// the model's, which follows the documented rule)
+		return ""
+	}
 	if strings.Join(have, "\n") != strings.Join(want, "\n") {
 		return fmt.Sprintf("the comment directly above import \"C\" is not the preamble in the order given:\n  have %q\n  want %q", have, want)
 	}
@@ -557,6 +565,32 @@ func C19Check(qual, anon bool, pre []string, others []string, src string) string
 		return "the other imports are not in a declaration of their own"
 	}
 	return ""
+}
+
+// c19LooksRawAfterTrim: some block is not in raw form but would be without the white space in
+// front of it.
+func c19LooksRawAfterTrim(pre []string) bool {
+	for _, p := range pre {
+		if t := strings.TrimLeft(p, " \t\r\n"); t != p && (strings.HasPrefix(t, "//") || strings.HasPrefix(t, "/*")) {
+			return true
+		}
+	}
+	return false
+}
+
+// c19Unmark strips one comment marker from each line (`// x`, `/* x */` -> `x`).
+func c19Unmark(lines []string) []string {
+	var out []string
+	for _, l := range lines {
+		if strings.HasPrefix(l, "//") || strings.HasPrefix(l, "/*") {
+			l = l[2:]
+		}
+		l = strings.TrimSpace(strings.TrimSuffix(l, "*/"))
+		if l != "" {
+			out = append(out, l)
+		}
+	}
+	return out
 }
 
 func exprText(e ast.Expr) string {
